@@ -1,5 +1,5 @@
 (** Comparison helpers for the generated OER correspondence case files. *)
-From Asn1V Require Import Base.Prelude Base.Corr Syntax.Asn1 Oer.OerPrim Oer.OerImpl Oer.X696.
+From Asn1V Require Import Base.Prelude Base.Corr Syntax.Asn1 Oer.OerPrim Oer.OerImpl Oer.OerScope Oer.X696 Oer.X696Scope.
 Open Scope Z_scope.
 
 Definition err_eqb (a b : err) : bool :=
@@ -52,3 +52,10 @@ Definition run_spec (fuel : nat) (c : enc_case) : option (list Z) :=
 Definition dec_case : Type := (bool * env * ty * list Z)%type.
 Definition run_dec (fuel : nat) (c : dec_case) : result (value * nat) :=
   let '(numeric, e, t, bs) := c in oer_decode numeric fuel e t bs.
+
+(** the regions of the theorems, evaluated on the generated cases: the Python
+    predicates of harness/codec_oer.py must not be wider than the Coq ones *)
+Definition run_ok (fuel : nat) (c : enc_case) : bool :=
+  let '(numeric, e, t, v) := c in oer_ok numeric fuel e t v.
+Definition run_scope (fuel : nat) (c : enc_case) : bool :=
+  let '(numeric, e, t, v) := c in in_scope numeric fuel e t v.
